@@ -342,6 +342,11 @@ def chunk_index(fn, site):
     origins = core.binding_origins(fn)
     for x in core.walk_fn(fn):
         fl = core.as_for(x)
+        if fl is None and x.get("k") == "MethodCall" and x["m"] in ("map", "for_each", "try_for_each", "filter_map", "flat_map", "filter", "any", "all", "find_map", "fold", "try_fold") and x["args"]:
+            # the element of an iterator chain handed to a closure: `..chunks(3)..map(|(m, color)| .. color[0] ..)`
+            cl = core.strip(x["args"][-1])
+            if cl.get("k") == "Closure" and cl.get("params"):
+                fl = (cl["params"], x["recv"], cl["body"], None)
         if fl is None or x.get("k") == "DropTemps":
             continue
         lids = []
